@@ -21,7 +21,7 @@ CHECKS = {
    text="For each conversation of a seeded corpus (1-3 transactions, DATA and BDAT, SMTP and LMTP, partial end markers in the text, transfers abandoned by RSET/QUIT/EHLO/MAIL/nothing) the connection is cut at EVERY octet offset of the client's stream (FIN), and with RST, half-close and stall-until-ReadTimeout at every 5th/7th/9th offset. Oracle per message: if its last octet (end marker / LAST payload) was not delivered, the backend reader never reports EOF, a backend reading to the end gets a non-EOF error and returns, and no 2xx final reply is written; whenever the reader reports EOF the octets are the whole message; the fault-free base run of every conversation must be healthy.",
    note="Exhaustive over cut offsets of the generated corpus, not over all conversations. The backend reads to the end (Session.Data documents that r must be consumed), so a backend that accepts early is outside the contract and not judged."),
  "C08": dict(level="fault_enumeration", ref="7/C08",
-   text="(a) C07's corpus with the connection cut at every octet offset; (b) every server-initiated ending (221 after QUIT, fourth protocol error, over-long line, idle timeout, backend panic in NewSession/Mail/Rcpt/Data, Server.Close at a drawn instant) at five conversation positions, each followed by drawn suffixes of 0-4 commands already buffered in the same segment or sent later; (c) STARTTLS whose Logout is parked while Server.Close fires. Oracles over callback begin events keyed by session identity: exactly one Logout per created session, no callback beginning after it, no callback after the server closed its endpoint, no reply attempted after a self-initiated close, Serve returns, and no goroutine of the bubble is left one fake hour later (stack dump as witness).",
+   text="(a) C07's corpus with the connection cut at every octet offset; (b) every server-initiated ending (221 after QUIT, fourth protocol error, over-long line, idle timeout, backend panic in NewSession/Mail/Rcpt/Data, Server.Close at a drawn instant) at five conversation positions, each followed by drawn suffixes of 0-4 commands already buffered in the same segment or sent later; (c) STARTTLS whose Logout is parked while Server.Close fires. Oracles over callback begin events keyed by session identity: exactly one Logout per created session, no callback beginning after it, no callback after the server closed its endpoint, no reply attempted after a self-initiated close, Serve returns, and no goroutine of the bubble is left one fake hour later (stack dump as witness). Second build (instr tier): every run again against a scratch copy of the library with yield points inserted by program in front of every statement outside lock-held regions (see C20), parked at a drawn point or subset, so that Server.Close and the cut can land between any two statements of the command loop; a command that was in flight when Server.Close struck from another goroutine is not judged as 'executed after the close'.",
    note="Callback order is the order of a global sequence number taken on entry. Commands fully received before a peer disconnect may run; a final line cut before its CRLF is not judged."),
  "C19": dict(level="exploration", ref="7/C19",
    text="Systematic sweep of probe lines of length limit-2..limit+3/+50/2*limit for limits 64/200/2000 at five conversation positions (including right after a BDAT chunk), endless 70000-octet lines at four positions, all strings of length <=4 over {NUL,CR,LF,SP,A,:,<} as command lines (400 quick / 2800 thorough x 3 positions), plus seeded binary input and valid/malformed mixes around the fourth error, all under drawn segmentation (limit crossed inside one segment or across segments). Oracles: no recovered panic in ErrorLog, no process crash, no deadlock or leaked goroutine; a line > limit+1 gets exactly one 500, the connection is closed and nothing of it reaches the backend; a line <= limit is handled normally; the connection closes exactly at the fourth malformed command (reference counter); for an endless line the transport counts how many octets the server pulled: at most limit + 8 KiB.",
@@ -48,8 +48,8 @@ CHECKS = {
    text="Server half: the systematic product pre-history {greeted, authenticated, mid-transaction, mid-BDAT with a parked delivery} x injected plaintext {absent, in the STARTTLS segment, in a later segment before the ClientHello} x TLS {available, not configured, already active}; the raw driver completes a real crypto/tls handshake and sends a drawn tail of in-TLS commands. Oracles on a completed upgrade: no injected bait address reaches the backend, in-TLS reply count = in-TLS command count, MAIL before the new EHLO and RCPT are 5xx, AUTH is not 503, every plaintext session was logged out before the first session that sees TLS, EHLO in TLS no longer advertises STARTTLS; STARTTLS is advertised and accepted iff TLS is configured and not active. Client half: real client via NewClientStartTLS, DialStartTLS and package-level SendMail (both through the VerifDial hook) against a stub server x 7 behaviours x 3 APIs. Oracles: a tap on the raw socket shows nothing but EHLO/HELO/STARTTLS/QUIT before the first TLS record; the stub never sees MAIL/RCPT/AUTH/DATA/content in plaintext; every misbehaviour ends in an API error; on an honest upgrade the first in-TLS command is EHLO and MAIL parameters follow the in-TLS capability list, which differs from the plaintext one (this also catches an injected reply being consumed).",
    note="After a failed handshake nothing is judged except C08's rules. Package-level SendMail uses default certificate verification, so against the self-signed simulated peer only its failure modes are reachable."),
  "C20": dict(level="exploration", ref="7/C20",
-   text="Every scenario (1-3 connections running chunked/LMTP transfer patterns with slow stale deliveries, pauses, QUIT/disconnect inside a transfer; 0-3 Server.Close/Shutdown(ctx with fake deadline) calls at drawn instants, overlapped through the VerifYield hook, or racing with the start of Serve; scripted temporary/permanent Accept errors; failing listener Close) runs in two builds. Plain build: bubble deadlock, goroutines left after one fake hour (with stacks), panics in Close/Shutdown or handlers, the Close/Shutdown history checked with porcupine v1.3.0 for linearizability against an open->closed register (event sequence numbers as timestamps), Serve returns nil after Close/Shutdown and exactly the permanent Accept error otherwise, temporary Accept errors are survived, Shutdown returns nil only after the active connections ended or its context's error not before the fake deadline, one Logout per session. -race build: the Go race detector is the oracle; a report whose accessing frames are library code is a violation keyed by the unordered pair of access sites, a report in harness code is a harness fault (exit 2).",
-   note="Interleavings are controlled at blocking points and at the two yield hooks; a race inside a straight-line stretch of the command loop is only seen by the detector if no later lock release by the same goroutine orders it before the other goroutine runs (measured: removing Conn.locker from reset() is NOT detected, sharing the BDAT result channel IS). A porcupine timeout is inconclusive and never reported."),
+   text="Every scenario (1-3 connections running chunked/LMTP transfer patterns with slow stale deliveries, pauses, QUIT/disconnect inside a transfer; 0-3 Server.Close/Shutdown(ctx with fake deadline) calls at drawn instants, overlapped through the VerifYield hook, or racing with the start of Serve; scripted temporary/permanent Accept errors; failing listener Close) runs in two builds. Plain build: bubble deadlock, goroutines left after one fake hour (with stacks), panics in Close/Shutdown or handlers, the Close/Shutdown history checked with porcupine v1.3.0 for linearizability against an open->closed register (event sequence numbers as timestamps), Serve returns nil after Close/Shutdown and exactly the permanent Accept error otherwise, temporary Accept errors are survived, Shutdown returns nil only after the active connections ended or its context's error not before the fake deadline, one Logout per session. -race build: the Go race detector is the oracle; a report whose accessing frames are library code is a violation keyed by the unordered pair of access sites, a report in harness code is a harness fault (exit 2). Third build (instr tier): the same scenarios against a scratch copy of /repo's working tree into which verifctl has inserted a yield point in front of every statement of server.go and conn.go at which no library mutex can be held (about 570 points; go/ast + go/types, lexical lock regions plus call closure, ranges over maps excluded, a TryLock probe of both mutexes before every park); a run parks at one drawn point every time it is passed or at a drawn subset of all points, so Close, Shutdown, the Accept loop, connection goroutines and deliveries get in between any two statements of each other; same oracles as the plain build, replay files marked instr replay against a rebuilt instrumented copy.",
+   note="Interleavings are decided at blocking points, at the hand-placed yield hooks, and (instr tier) at yield points inserted by program in front of every statement outside lock-held regions; statements inside a region with a library mutex held are never separated (a sleeper under a mutex would stop the fake clock), there the race detector is the only oracle. A race inside a straight-line stretch of the command loop is only seen by the detector if no later lock release by the same goroutine orders it before the other goroutine runs. A porcupine timeout is inconclusive and never reported. The instr tier runs without the race detector (its lock probe is a synchronisation)."),
  "C01": dict(level="exploration", ref="7/C01",
    text="Seeded search plus a systematic sweep of all 5461 bodies over the byte classes {'.',CR,LF,other} up to length 6, each run under a drawn transport segmentation, server short-read plan and backend read-size plan; the octets and terminal error the real dataReader hands the backend are compared with an RFC 5321 reference unstuffer. Sampling, not proof: evidence of byte-exactness over the explored streams x schedules.",
    note="Trusts: the reference unstuffer (cross-checked against a reference stuffer), Go's testing/synctest fake clock, go1.26.8 building go-smtp the same way go1.23.5 does."),
